@@ -23,6 +23,12 @@ def main():
                 import time
                 time.sleep(spec['slow_stdout'])
             return io.BytesIO.writelines(self, lines)
+
+        def flush(self):
+            # flushing takes its time too: layer subprocesses may well end while the parent is busy flushing
+            import time
+            time.sleep(spec['slow_stdout'] / 3.0)
+            return io.BytesIO.flush(self)
     cap = Stream(SlowBytesIO() if spec.get('slow_stdout') else io.BytesIO(), encoding=spec.get('stdout_encoding', 'utf-8'),
                  errors='strict', write_through=True)
     cap_err = Stream(io.BytesIO(), encoding='utf-8', errors='backslashreplace', write_through=True)
